@@ -123,20 +123,32 @@ Theorem C17_heartbeat_alive_iff_no_timeout : forall T (N : NumOps T) k c t,
 Proof. exact @heartbeat_alive_iff. Qed.
 Print Assumptions C17_heartbeat_alive_iff_no_timeout.
 
-(* --- non-vacuity: a 10 Hz source (W = 20), 21 stamps 0.1 s apart starting at 1 s: rate = 20 / 2 s = 10 --- *)
-Definition ex_evs : list event := map (fun i => Data (1000000000 + 100000000 * Z.of_nat i)) (seq 0 21).
-Example C17_ex_window : window_size ROps 10 = 20%Z.
+(* --- non-vacuity: a 1 Hz source (W = clamp(2,4,64) = 4), 5 stamps 1 s apart starting at 1 s with an early heartbeat
+       in between: rate = 4 / 4 s = 1; a heartbeat 0.6 s after the last stamp then makes the history stale --- *)
+Definition ex_evs : list event :=
+  [Data 1000000000; Data 2000000000; Heartbeat 2400000000; Data 3000000000; Data 4000000000; Data 5000000000].
+Example C17_ex_window : window_size ROps 1 = 4%Z.
 Proof.
-  rewrite C17_window_size_clamp by lra. replace (2 * 10) with (IZR 20) by (simpl; lra).
+  rewrite C17_window_size_clamp by lra. replace (2 * 1) with (IZR 2) by lra.
   rewrite Raux.Zfloor_IZR. reflexivity.
 Qed.
-Example C17_ex_rate : rm_rate (rm_run ROps (rm_init ROps 10) ex_evs) = 10.
+Example C17_ex_increasing : increasing (data_stamps ex_evs).
 Proof.
-  destruct (C17_rate_is_W_over_span 10 ex_evs) as [_ E].
-  - intros i j H. unfold ex_evs in *. cbn [data_stamps map seq length] in *.
-    do 21 (destruct i as [|i]; [do 21 (destruct j as [|j]; [cbn; lia|]); cbn in H; lia|]). cbn in H; lia.
+  intros i j H. cbn [ex_evs data_stamps length] in *.
+  do 5 (destruct i as [|i]; [do 5 (destruct j as [|j]; [cbn [nth]; lia|]); cbn in H; lia|]). cbn in H; lia.
+Qed.
+Example C17_ex_not_stale : snd (hist ROps ex_evs) = false.
+Proof. unfold hist, ex_evs. cbn [fold_left hstep fst snd]. reflexivity. Qed.
+Example C17_ex_rate : rm_rate (rm_run ROps (rm_init ROps 1) ex_evs) = 1.
+Proof.
+  destruct (C17_rate_is_W_over_span 1 ex_evs C17_ex_increasing) as [_ E].
   - rewrite C17_ex_window. cbn. lia.
-  - reflexivity.
-  - rewrite E, C17_ex_window. cbn [ex_evs data_stamps map seq length last nth Z.to_nat Pos.to_nat Pos.iter_op Nat.add Nat.sub].
-    cbn. lra.
+  - exact C17_ex_not_stale.
+  - assert (Hs : (last (data_stamps ex_evs) 0 - nth (length (data_stamps ex_evs) - Z.to_nat 4 - 1) (data_stamps ex_evs) 0)%Z
+                 = 4000000000%Z) by (vm_compute; reflexivity).
+    rewrite E, C17_ex_window, Hs. lra.
+Qed.
+Example C17_ex_stale : snd (hist ROps (ex_evs ++ [Heartbeat 5600000000])) = true.
+Proof.
+  apply C17_stale_iff. exists ex_evs, 5600000000%Z, []. repeat split; discriminate.
 Qed.
